@@ -78,6 +78,7 @@ package actor
 //@ ghost local ru_gid string
 
 //@ func recordUnsent(requests, err, failures)
+//@   requires err != nil
 //@   bounds off
 //@   ghost entry ru_rec = 0
 //@   ghost entry ru_base = 0
@@ -98,3 +99,20 @@ package actor
 //@   at call 2 of (*relocationFailures).record assert records-only-eager-grains-as-grains: ru_last_eager && arg0 == failures && arg1 == ru_gid && arg2 == true && arg3 == err
 //@   at call 2 of (*relocationFailures).record ghost ru_grec = ru_grec + 1
 //@   ensures every-eager-grain-recorded: ru_grec == ru_eager
+
+// the failure list of a departure (a monitor under mu): recording appends exactly
+// one entry describing that item, merging appends exactly the reported entries in
+// order; neither drops or rewrites what was recorded before.
+//@ func (*relocationFailures).record(r, id, grain, err)
+//@   requires err != nil
+//@   ensures appends-exactly-one: len(r.failures) == old(len(r.failures)) + 1
+//@   ensures describes-that-item: r.failures[len(r.failures)-1] != nil && r.failures[len(r.failures)-1].Id == id && r.failures[len(r.failures)-1].Grain == grain
+//@   ensures earlier-entries-kept: forall j int :: 0 <= j && j < old(len(r.failures)) ==> r.failures[j] == old(r.failures[j])
+
+//@ func (*relocationFailures).merge(r, failures)
+//@   ensures appends-all-reported: len(r.failures) == old(len(r.failures)) + len(failures)
+//@   ensures in-the-reported-order: forall j int :: 0 <= j && j < len(failures) ==> r.failures[old(len(r.failures)) + j] == old(failures[j])
+//@   ensures earlier-entries-kept: forall j int :: 0 <= j && j < old(len(r.failures)) ==> r.failures[j] == old(r.failures[j])
+
+//@ func (*relocationFailures).items(r)
+//@   ensures the-recorded-list: result == r.failures
